@@ -457,5 +457,133 @@ theorem decode_np (b : Bytes) (s : String) : decode h b ≠ .panic s := by
 
 end
 
+/-! ### `decrypt_subject` step by step -/
+
+section
+variable (h : Hash) (A : Aead)
+
+theorem subject_encrypted_cases {r : Env} {m : EncMsg} {d0 : Digest}
+    (hs : r.subject = .encrypted m d0) :
+    r = .encrypted m d0 ∨ ∃ as d, r = .node (.encrypted m d0) as d := by
+  cases r with
+  | node s as d => simp only [Env.subject] at hs; subst hs; exact Or.inr ⟨as, d, rfl⟩
+  | encrypted m' d' => exact Or.inl hs
+  | _ => cases hs
+
+theorem decryptSubject_not_encrypted {k : Bytes} {r : Env} (hs : r.subject.isEncrypted = false) :
+    decryptSubject h A k r = .err "NotEncrypted" := by
+  unfold decryptSubject
+  split
+  · rename_i m d0 heq
+    rw [heq] at hs
+    cases hs
+  · rfl
+
+theorem decryptSubject_dec_none {k : Bytes} {r : Env} {m : EncMsg} {d0 : Digest}
+    (hs : r.subject = .encrypted m d0) (hd : decryptMsg A k m = none) :
+    decryptSubject h A k r = .err "dep:Decrypt_failed" := by
+  unfold decryptSubject
+  simp only [hs, hd]
+
+theorem decryptSubject_leaf_form {k : Bytes} {m : EncMsg} {d0 dd : Digest} {pt : Bytes} {x : Env}
+    (hd : decryptMsg A k m = some pt) (ho : m.optDigest = some dd) (hx : decode h pt = .ok x) :
+    decryptSubject h A k (.encrypted m d0) =
+      if x.digest != dd then .err "InvalidDigest" else .ok x := by
+  unfold decryptSubject
+  simp only [Env.subject, hd, ho, hx]
+
+theorem decryptSubject_node_form {k : Bytes} {m : EncMsg} {d0 dd d : Digest} {as : List Env}
+    {pt : Bytes} {x : Env}
+    (hd : decryptMsg A k m = some pt) (ho : m.optDigest = some dd) (hx : decode h pt = .ok x) :
+    decryptSubject h A k (.node (.encrypted m d0) as d) =
+      if x.digest != dd then .err "InvalidDigest" else
+      match newNodeUnchecked h x as with
+      | .ok r => if r.digest != d then .err "InvalidDigest" else .ok r
+      | .err y => .err y
+      | .panic y => .panic y := by
+  unfold decryptSubject
+  simp only [Env.subject, hd, ho, hx]
+
+end
+
+/-! ### not every `Inv` envelope round-trips through the bytes -/
+
+/-- a compressed element whose data is longer than its declared size: it satisfies `Inv`
+(which says nothing about the fields of `Compressed`), and the decoder refuses it -/
+def badComp : Env := .compressed ⟨0, 0, [1]⟩ ⟨0⟩
+
+theorem badComp_inv (h : Hash) : Inv h badComp :=
+  ⟨trivial, by simp [badComp, Canon, Digest.Valid]⟩
+
+set_option maxRecDepth 8000 in
+theorem badComp_decode (h : Hash) : decode h (encode badComp) = .err "dep:compressed-size" := by
+  rfl
+
+/-- this is why the byte round trip is a hypothesis on the envelope concerned
+(`RoundTrips h x`, discharged by C05 from `EncShape x`, `Encodable x`, `CodecLaws`) and not
+`∀ e, Inv h e → decode h (encode e) = .ok e`, which no hash function satisfies -/
+theorem not_forall_inv_roundTrips (h : Hash) : ¬ ∀ e, Inv h e → RoundTrips h e := by
+  intro H
+  have h1 := H badComp (badComp_inv h)
+  rw [RoundTrips, badComp_decode] at h1
+  cases h1
+
+/-! ### compress / uncompress -/
+
+section
+variable (h : Hash) (Z : Deflate)
+
+theorem compress_ok_of {e z : Env} (hc : e.isCompressed = false) (hr : compress Z e = .ok z) :
+    z = .compressed (compressedOf Z (encode e)) e.digest ∧ e.isEncrypted = false ∧
+      e.isElided = false := by
+  cases e with
+  | compressed c d => cases hc
+  | encrypted m d => cases hr
+  | elided d => cases hr
+  | node s as d => simp only [compress] at hr; cases hr; exact ⟨rfl, rfl, rfl⟩
+  | leaf c d => simp only [compress] at hr; cases hr; exact ⟨rfl, rfl, rfl⟩
+  | wrapped x d => simp only [compress] at hr; cases hr; exact ⟨rfl, rfl, rfl⟩
+  | assertion p o d => simp only [compress] at hr; cases hr; exact ⟨rfl, rfl, rfl⟩
+  | knownValue v d => simp only [compress] at hr; cases hr; exact ⟨rfl, rfl, rfl⟩
+
+theorem compress_of_plain {e : Env} (hc : e.isCompressed = false) (he : e.isEncrypted = false)
+    (hl : e.isElided = false) :
+    compress Z e = .ok (.compressed (compressedOf Z (encode e)) e.digest) := by
+  cases e with
+  | compressed c d => cases hc
+  | encrypted m d => cases he
+  | elided d => cases hl
+  | _ => rfl
+
+theorem uncompress_compressedOf {Z : Deflate} (L : DeflateLaws Z) {e : Env} (hrt : RoundTrips h e) :
+    uncompress h Z (.compressed (compressedOf Z (encode e)) e.digest) = .ok e := by
+  unfold uncompress
+  simp only [uncompressMsg_compressedOf L]
+  rw [RoundTrips] at hrt
+  simp only [hrt, bne_self_eq_false, Bool.false_eq_true, if_false]
+
+theorem uncompress_ok {e z : Env} (hr : uncompress h Z e = .ok z) :
+    ∃ c d data, e = .compressed c d ∧ uncompressMsg Z c = some data ∧ decode h data = .ok z ∧
+      z.digest = d := by
+  unfold uncompress at hr
+  split at hr
+  · rename_i c d
+    split at hr
+    · cases hr
+    · rename_i data hdata
+      split at hr
+      · rename_i r hdec
+        split at hr
+        · cases hr
+        · rename_i hne
+          cases hr
+          refine ⟨c, d, data, rfl, hdata, hdec, ?_⟩
+          simpa using hne
+      · cases hr
+      · cases hr
+  · cases hr
+
+end
+
 end Obs
 end EnvVerif
